@@ -1,3 +1,5 @@
+import io
+import contextlib
 """C03 - every example string is matched by one of the regular expressions rexpy returns.
 Layers: (K1) character level - the model's category semantics / regex texts / coarse and fine classification /
 escape / escaped_bracket vs the real Categories and CPython re over a sweep of code points; (K2) the extracted
@@ -83,7 +85,8 @@ def run(ctx):
         opts = R.gen_opts(rng)
         case = {'form': 'extract()', 'examples': repr(ex)[:2000], 'opts': opts}
         try:
-            rexes = rx.extract(list(ex), **opts)
+            with contextlib.redirect_stdout(io.StringIO()):
+                rexes = rx.extract(list(ex), **opts)
         except Exception as e:
             ctx.fail(case, 'extract raised %s: %s' % (type(e).__name__, str(e)[:200]))
             continue
@@ -107,7 +110,8 @@ def run(ctx):
         seed = rng.randrange(1000)
         case = {'form': 'drift', 'examples': repr(ex)[:2000], 'opts': opts, 'size': size, 'seed': seed}
         try:
-            rexes = rx.extract(list(ex), size=rx.Size(**size), seed=seed, **opts)
+            with contextlib.redirect_stdout(io.StringIO()):
+                rexes = rx.extract(list(ex), size=rx.Size(**size), seed=seed, **opts)
         except Exception as e:
             ctx.fail(case, 'extract raised %s: %s' % (type(e).__name__, str(e)[:200]))
             continue
